@@ -933,6 +933,17 @@ pub fn families(nmax: usize) -> Vec<(String, Vec<Op>)> {
             ));
         }
         if n <= 32 {
+            // the same long lists declared by a system INSIDE a batch (they end up in the batch's union accessor, which
+            // the builder sorts and de-duplicates), the small system outside, before and after the batch
+            for (x, y) in [(0u8, 1u8), (1, 0)] {
+                let pad = |last: u8| -> Vec<u8> { std::iter::repeat(x).take(n - 1).chain(std::iter::once(last)).collect() };
+                for (label, inner_r, inner_w, small_r, small_w) in [("writer outside / long write list inside", vec![], pad(y), vec![], vec![y]), ("writer outside / long read list inside", pad(y), vec![], vec![], vec![y]), ("reader outside / long write list inside", vec![], pad(y), vec![y], vec![])] {
+                    let bt = Op::Batch(BatchSpec { name: "b".into(), deps: vec![], ctrl: CtrlData::Unit, times: 1, multi: false, fetch_data: false, inner: vec![s("wide".into(), &inner_r, &inner_w, 3, vec![]), s("other".into(), &[], &[], 3, vec![])] });
+                    let small = s("small".into(), &small_r, &small_w, 3, vec![]);
+                    out.push((format!("batch-inner-long-list({}; {}; shared {} behind {})", n, label, y, x), vec![bt.clone(), small.clone()]));
+                    out.push((format!("batch-inner-long-list({}; {}; shared {} behind {}; small first)", n, label, y, x), vec![small, bt]));
+                }
+            }
             // long declared lists: the one shared resource sits behind n-1 entries naming another resource
             // (duplicates are legal), in the read or the write list, registered before or after the small system
             for (x, y) in [(0u8, 1u8), (1, 0)] {
@@ -1391,6 +1402,23 @@ pub fn c19_sweep_plans(len: usize) -> Vec<Vec<Op>> {
             }
         }
         frontier = next;
+    }
+    // batches whose inner systems touch BOTH resources (the union accessor is built by sorting and de-duplicating
+    // ids: an ordering that disagrees with equality would lose one), an outer system touching one of them
+    for (w0, w1) in [(true, true), (true, false), (false, true)] {
+        for outer_res in [0u8, 1] {
+            for outer_write in [true, false] {
+                for outer_first in [false, true] {
+                    let acc = |res: u8, write: bool| -> (Vec<u8>, Vec<u8>) { if write { (vec![], vec![res]) } else { (vec![res], vec![]) } };
+                    let (r0, wr0) = acc(0, w0);
+                    let (r1, wr1) = acc(1, w1);
+                    let bt = Op::Batch(BatchSpec { name: "b".into(), deps: vec![], ctrl: CtrlData::Unit, times: 1, multi: false, fetch_data: false, inner: vec![s("in0".into(), &r0, &wr0, 3, vec![]), s("in1".into(), &r1, &wr1, 3, vec![])] });
+                    let (ro, wo) = acc(outer_res, outer_write);
+                    let outer = s("out".into(), &ro, &wo, 3, vec![]);
+                    out.push(if outer_first { vec![outer, bt] } else { vec![bt, outer] });
+                }
+            }
+        }
     }
     out
 }
